@@ -105,6 +105,10 @@ def entry_monos(dim, n, l, kind, tag, shape, real):
         return {(0,) * dim: (np.eye(shape[0], dtype=complex) if len(shape) == 2 else np.array(1. + 0j))}
     if kind == 'par':       # powers with the parity of n only (C17 domain)
         return {e: g(e) for e in poly.exps(dim, l) if (sum(e) - n) % 2 == 0}
+    if kind in ('pad1', 'pad2', 'pad3'):   # generic of degree l-k stored with l blocks (zero-padded top blocks)
+        return {e: g(e) for e in poly.exps(dim, l) if sum(e) <= l - int(kind[3])}
+    if kind == 'gap':       # top block zero, block l-1 non-zero, block l-2 zero, lower blocks generic
+        return {e: g(e) for e in poly.exps(dim, l) if sum(e) == l - 1 or sum(e) < l - 2}
     if kind == 'top':       # homogeneous of degree l
         return {e: g(e) for e in poly.exps(dim, l) if sum(e) == l}
     if kind in ('r2', 'null'):   # (x^2+y^2(+z^2)) * q   resp.  (x^2+y^2(+z^2) - 1) * q, q generic of degree l-2
@@ -246,6 +250,12 @@ def forms_unary(tier, base=True):
     for l in (2, 3, 4):
         for k in ('r2', 'null', 'harm'): F.append([[0, l, k]])
     F.append([[2, 0, 'harm']]); F.append([[1, 1, 'harm']]); F.append([[2, 4, 'top']])
+    # zero-padded storage: the highest block(s) vanish, lower blocks of either parity do not
+    for l in (1, 2, 3, 4):
+        for k in (1, 2, 3):
+            if k <= l: F.append([[0, l, 'pad{}'.format(k)]])
+    F.append([[1, 3, 'gap']]); F.append([[0, 4, 'gap']]); F.append([[-1, 2, 'pad1'], [1, 4, 'pad1']])
+    F.append([[0, 3, 'pad1'], [0, 2, 'neg', 0.]])
     # two entries with the same n (uncollected / separated representation), incl. identical (n,l)
     for n in ((0, 2) if quick else NV):
         for l1 in LV:
@@ -1355,7 +1365,7 @@ def BOUNDS(tier):
             'table_Lmax_in_fresh_processes': [2, 6] if tier == 'quick' else [1, 2, 3, 5, 6],
             'init_histories': 'all sequences of <= 3 of {}'.format(ORDER_OPS),
             'mul_shape_pairs': ['{}*{}'.format(shp(a), shp(b)) for a, b in MUL_SHAPES],
-            'entry_kinds': ['gen', 'neg', 'top', 'r2', 'null', 'harm']}
+            'entry_kinds': ['gen', 'neg', 'top', 'r2', 'null', 'harm', 'pad1', 'pad2', 'pad3', 'gap']}
 
 
 def _merge(tot, r):
